@@ -301,7 +301,17 @@ impl<'a, 'b> TagBlock<'a, 'b> {
             return Ok(None);
         }
 
-        let element = self.iter.next().expect("File shouldn't end before EOI.");
+        let element = match self.iter.next() {
+            Some(element) => element,
+            // A nested block whose error was discarded has already consumed the end of input.
+            None => {
+                return Error::with_msg(format!(
+                    "Unclosed block. {{% {} %}} tag expected.",
+                    self.end_tag
+                ))
+                .into_err();
+            }
+        };
 
         if element.as_rule() == Rule::EOI {
             return error_from_pair(
@@ -657,7 +667,7 @@ impl InvalidLiquidToken<'_> {
     /// This is needed in order to raise the correct error message.
     fn parse_pair(
         self,
-        next_elements: &mut dyn Iterator<Item = Pair>,
+        _next_elements: &mut dyn Iterator<Item = Pair>,
     ) -> Result<Box<dyn Renderable>> {
         use pest::error::LineColLocation;
 
@@ -670,10 +680,11 @@ impl InvalidLiquidToken<'_> {
             .find(|i| invalid_token_position.line_of().is_char_boundary(*i))
             .unwrap_or(0);
 
-        let end_position = match next_elements.last() {
-            Some(element) => element.as_span().end_pos(),
-            None => invalid_token_span.end_pos(),
-        };
+        // The strict re-parse below runs to the end of the input.  The shared iterator is left
+        // alone: a caller that discards this error (a comment block) goes on reading from it.
+        let input = invalid_token_span.get_input();
+        let end_position = ::pest::Position::new(input, input.len())
+            .unwrap_or_else(|| invalid_token_span.end_pos());
 
         let mut text = String::from(&invalid_token_position.line_of()[..offset_c]);
         text.push_str(invalid_token_position.span(&end_position).as_str());
